@@ -100,6 +100,7 @@ class Engine:
         self.ops_done = 0
         self.quarantined = 0
         self._latest = {}
+        self._recv_cache = {}
 
     # -- reporting --------------------------------------------------------------
     def violate(self, inv, detail):
@@ -302,6 +303,10 @@ class Engine:
             mode = sel.get("mode") or ("immediate" if sel.get("focus") else "total")
             if mode == "immediate":
                 for i, d in msel.immediate(sel, self.sim.tr, lo, hi, recv_ok=self._recv_ok(sel)):
+                    for lv in sel["levels"]:
+                        if lv.get("recv"):
+                            # the event reports the receiver under the receiver parameter's name
+                            d[lv["recv_param"]] = ["inst", lv["recv_cls"], lv["recv"]]
                     if rec.spec.get("raw"):
                         d = {k: {"values": [v]} for k, v in d.items()}
                     exp.append((i, d))
@@ -313,7 +318,29 @@ class Engine:
         return exp
 
     def _recv_ok(self, sel):
-        return None
+        """Receiver constraint of object-bound selector levels (C13): the
+        activation's receiver must *be* the probed instance."""
+        if not any(lv.get("recv") for lv in sel["levels"]):
+            return None
+        tr = self.sim.tr
+
+        def recv_of(act_id):
+            if act_id not in self._recv_cache:
+                lab = None
+                for ev in tr.events:
+                    if ev["act"] == act_id and ev["k"] == "bind":
+                        v = ev["val"]
+                        if isinstance(v, list) and v and v[0] == "inst":
+                            lab = v[2]
+                        break
+                self._recv_cache[act_id] = lab
+            return self._recv_cache[act_id]
+
+        def ok(j, act_id):
+            want = sel["levels"][j].get("recv")
+            return want is None or recv_of(act_id) == want
+
+        return ok
 
     def compare_stream(self, inv, rec, exp, got):
         """exp: [(idx, ev)], got: [ev]; events of one idx compared as a multiset."""
@@ -698,7 +725,7 @@ class Engine:
         rec = self.probes.get(op.get("id"))
         if op["op"] in ("enter", "mk") and rec is not None and not rec.spec.get("expect_refusal"):
             self.violate(
-                "C01.instrumentable",
+                self.sc.get("activation_inv", "C01.instrumentable"),
                 {"op": op, "sel": getattr(rec, "strs", None), "error": res},
             )
         elif op["op"] == "tool":
